@@ -2,7 +2,7 @@
 # seedmatrix.sh [seed ids...] : every seed against every claimed property; one line per seed: which properties report VIOLATION / ANALYSIS-ERROR
 cd /verif
 PROPS=$(/venv/bin/python -c "import json;print(' '.join(c['property_id'] for c in json.load(open('MANIFEST.json'))['checks']))")
-SEEDS="$@"; [ -z "$SEEDS" ] && SEEDS=$(ls seeded)
+SEEDS="$@"; [ -z "$SEEDS" ] && SEEDS=$(ls -d seeded/*/ | xargs -n1 basename)
 run() {
   id=$1
   out=$(SEEDCHECK_LINES=400 tools/seedcheck.sh $id $PROPS 2>&1)
